@@ -50,8 +50,8 @@ NumberOK(o, v, k, slack) ==
     /\ (o.omitted => (o.hasexp /\ RoundsToOne(v, k) /\ ~v.neg))
 NumberClause(o, v, k, slack) ==
     IF ~(o.omitted \/ o.digs # <<>>) THEN "no-digits"
-    ELSE IF o.omitted /\ ~(o.hasexp /\ RoundsToOne(v, k) /\ ~v.neg) THEN "significand-omitted-but-not-one"
-    ELSE IF ~NumberOK(o, v, k, slack) THEN "not-within-half-unit-of-digit-" \o ToString(k)
+    ELSE IF o.omitted /\ ~(o.hasexp /\ RoundsToOne(v, k) /\ ~v.neg) THEN "omitted-not-one"
+    ELSE IF ~NumberOK(o, v, k, slack) THEN "not-within-half-unit"
     ELSE ""
 
 \* the %g presentation of a value rounded to k digits: fixed notation for decades -4..k-1,
@@ -91,6 +91,10 @@ LenExp(N, U, ue, E) ==
     (IF N.neg THEN 1 ELSE 0) + IntDigits(N, E) + (IF E - ue > 0 THEN 1 + E - ue ELSE 0)
     + 2 + (U.e - ue + 1) + 1 + SignedIntLen(E)
 
+\* an integer printed in full ("%.0f" of a float) is a multiple of 10^pos up to the binary allowance
+NearMultiple(d, pos, ref, slack) ==
+    \/ IsMultipleOfPow10(d, pos)
+    \/ slack /\ d.digs # <<>> /\ d.e >= pos /\ WithinTol(d, RoundAt(d, pos), <<BinSlack(ref)>>)
 UncertOK(o, v, u, k, slack) ==
     LET ue == UExp(u, k)
         N == UNominal(o)
@@ -104,7 +108,7 @@ UncertOK(o, v, u, k, slack) ==
         /\ WithinTol(U, u, tolu)
         \* ... and both are written down to exactly that digit
         /\ IF o.hasexp \/ ue <= 0 THEN ULastPos(o) = ue
-           ELSE ULastPos(o) = 0 /\ IsMultipleOfPow10(N, ue) /\ IsMultipleOfPow10(U, ue)
+           ELSE ULastPos(o) = 0 /\ NearMultiple(N, ue, v, slack) /\ NearMultiple(U, ue, u, slack)
         \* whichever of the plain and the exponent form is shorter
         /\ IF o.hasexp THEN o.len <= LenPlain(N, U, ue)
            ELSE \E E \in {v.e, N.e} : o.len <= LenExp(N, U, ue, E)
@@ -115,10 +119,10 @@ UncertClause(o, v, u, k, slack) ==
         tolv == IF slack THEN <<HalfAt(ue), BinSlack(v)>> ELSE <<HalfAt(ue)>>
         tolu == IF slack THEN <<HalfAt(ue), BinSlack(u)>> ELSE <<HalfAt(ue)>>
     IN  IF o.digs = <<>> \/ o.udigs = <<>> THEN "no-digits"
-        ELSE IF ~WithinTol(N, v, tolv) THEN "nominal-not-rounded-at-uncertainty-digit"
-        ELSE IF ~WithinTol(U, u, tolu) THEN "uncertainty-not-to-requested-digits"
+        ELSE IF ~WithinTol(N, v, tolv) THEN "nominal-off"
+        ELSE IF ~WithinTol(U, u, tolu) THEN "uncertainty-off"
         ELSE IF ~(IF o.hasexp \/ ue <= 0 THEN ULastPos(o) = ue
-                  ELSE ULastPos(o) = 0 /\ IsMultipleOfPow10(N, ue) /\ IsMultipleOfPow10(U, ue))
+                  ELSE ULastPos(o) = 0 /\ NearMultiple(N, ue, v, slack) /\ NearMultiple(U, ue, u, slack))
              THEN "last-digit-position"
         ELSE IF ~UncertOK(o, v, u, k, slack) THEN "not-the-shorter-layout"
         ELSE ""
@@ -217,11 +221,12 @@ RomanFinish ==
     /\ stage' = "done"
     /\ UNCHANGED <<mode, x, n, xe, p, unit, out, rn, rrem, rsyms>>
 
-GenValue == \E s \in Signs, d \in Sigs, e \in Exps : ChooseValue(Dec(s, d, e))
-GenUnit == \E u \in Units : WithUnit(u)
-GenPrecision == \E k \in Precs : ChoosePrecision(k)
-GenUncert == \E d \in UncSigs, o \in UncOffs, k \in UncPrecs : ChooseUncert(Dec(FALSE, d, x.e - o), k)
-GenRoman == \E k \in 1..RomanMax : RomanChoose(k)
+\* (the stage guard stands before the quantifier so that TLC does not enumerate the alphabet in every state)
+GenValue == stage = "start" /\ \E s \in Signs, d \in Sigs, e \in Exps : ChooseValue(Dec(s, d, e))
+GenUnit == stage = "value" /\ \E u \in Units : WithUnit(u)
+GenPrecision == stage = "value" /\ \E k \in Precs : ChoosePrecision(k)
+GenUncert == stage = "value" /\ \E d \in UncSigs, o \in UncOffs, k \in UncPrecs : ChooseUncert(Dec(FALSE, d, x.e - o), k)
+GenRoman == stage = "start" /\ \E k \in 1..RomanMax : RomanChoose(k)
 
 Next == GenValue \/ GenUnit \/ GenPrecision \/ Format \/ GenUncert \/ FormatUncert
         \/ GenRoman \/ RomanStep \/ RomanFinish
